@@ -258,3 +258,64 @@ def rule_abseps(prog: Program, modules: Optional[Set[str]] = None) -> List[Insta
                 out.append(Instance("R-ABSEPS", cid, OK, f"`{short(n, 50)}`: {why}", fi.where(n), nontrivial=False))
     out.append(Instance("R-ABSEPS", "abs-eps-scan", OK, f"{n_seen} uses of absolute-epsilon affine predicates, none on a pixel->world affine", "", nontrivial=False))
     return out
+
+
+# ---------------------------------------------------------------------------------------------
+# R-MEMO: a function-local memo dict inside a loop
+# ---------------------------------------------------------------------------------------------
+def rule_localmemo(prog: Program, modules: Optional[Set[str]] = None) -> List[Instance]:
+    """`v = memo.get(K)` ... `memo[K] = V` inside a loop: the stored value may depend on the loop
+    variables only through the names that make up the key K. A value that also depends on a loop
+    variable not in the key is served stale to every later iteration that shares the key."""
+    from ..astutil import Origins
+
+    out: List[Instance] = []
+    n_memo = 0
+    for fi in prog.all_functions(modules):
+        stores = []
+        for n in walk_own(fi.node):
+            if isinstance(n, ast.Assign) and len(n.targets) == 1 and isinstance(n.targets[0], ast.Subscript) and isinstance(n.targets[0].value, ast.Name):
+                stores.append(n)
+        if not stores:
+            continue
+        gets = {}
+        for n in walk_own(fi.node):
+            if isinstance(n, ast.Call) and isinstance(n.func, ast.Attribute) and n.func.attr == "get" and isinstance(n.func.value, ast.Name) and n.args:
+                gets.setdefault(n.func.value.id, []).append(n)
+            if isinstance(n, ast.Compare) and len(n.ops) == 1 and isinstance(n.ops[0], (ast.In, ast.NotIn)) and isinstance(n.comparators[0], ast.Name):
+                gets.setdefault(n.comparators[0].id, []).append(n)
+        org = None
+        for st in stores:
+            d = st.targets[0].value.id
+            if d not in gets:
+                continue
+            # enclosing loops
+            loops = []
+            p = parent(st)
+            while p is not None and p is not fi.node:
+                if isinstance(p, (ast.For, ast.AsyncFor)):
+                    loops.append(p)
+                p = parent(p)
+            if not loops:
+                continue
+            # the dict must be created outside the loop (otherwise it is per-iteration scratch)
+            loopvars = {t.id for lp in loops for t in ast.walk(lp.target) if isinstance(t, ast.Name)}
+            key = st.targets[0].slice
+            keynames = {x.id for x in ast.walk(key) if isinstance(x, ast.Name)}
+            if not keynames or not any(short(g.args[0] if isinstance(g, ast.Call) else g.left) == short(key) for g in gets[d]):
+                continue
+            created_inside = any(isinstance(x, ast.Assign) and any(isinstance(t, ast.Name) and t.id == d for t in x.targets) for lp in loops for x in ast.walk(lp))
+            if created_inside:
+                continue
+            n_memo += 1
+            if org is None:
+                org = Origins(fi)
+            # names the key is made of stop the walk; loop-bound names of comprehensions inside V are local
+            local = {t.id for c in ast.walk(st.value) if isinstance(c, ast.comprehension) for t in ast.walk(c.target) if isinstance(t, ast.Name)}
+            dep = org.deps_names(st.value, set(keynames)) - keynames - local
+            stale = sorted(dep & loopvars)
+            out.append(Instance("R-MEMO", f"{fi.qual}#memo:{d}[{short(key, 20)}]", BAD if stale else OK,
+                                f"`{d}[{short(key, 20)}]` caches a value that also depends on loop variable(s) {stale}, which are not part of the key: later iterations with the same key get the value computed for the first one" if stale
+                                else f"memo `{d}` keyed by `{short(key, 20)}`: the stored value depends on the loop only through the key", fi.where(st)))
+    out.append(Instance("R-MEMO", "memo-scan", OK, f"{n_memo} loop-local memo dictionaries checked", "", nontrivial=False))
+    return out
